@@ -81,6 +81,7 @@
 #define K_KV 5      /* k = v  */
 #define K_REF 6     /* k = [lit]${ref} */
 #define K_ENV 7     /* k = ${%ENV} */
+#define K_REF2 8    /* k = ${r1}[x]${r2}: two references on one line, each defined or not */
 /* line kinds of the expansion templates (mode 3) */
 #define T_REF 1     /* n=${r}   */
 #define T_LITREF 2  /* n=l${r}  */
@@ -477,6 +478,7 @@ static unsigned line_radix(int k) {
     case K_KV: return N_LAY * N_NAMES * N_KVVALS;
     case K_REF: return N_LAY * N_NAMES * N_REFS * N_PRES;
     case K_ENV: return N_LAY * N_NAMES * N_ENVNAMES;
+    case K_REF2: return N_LAY * N_NAMES * 3 * 3 * 2;
     }
     return 1;
 }
@@ -538,6 +540,30 @@ static void doc_line(int kind, int with_nl) {
                 s_catc(val, '}');
                 ex_put(name, val, 1);
             }
+        } else if (kind == K_REF2) {
+            /* two references on one line: each is replaced by the value in effect when it is defined and stays as written
+             * otherwise - independently of the other one (an undefined reference must not stop the expansion of a later one) */
+            static const char *const r2refs[3] = {"a", "b", "c"};
+            const char *r1 = r2refs[dig(3)], *r2 = r2refs[dig(3)];
+            int mid = (int)dig(2);
+            int dirty = 0;
+            for (int w = 0; w < 2; w++) {
+                const char *ref = w == 0 ? r1 : r2;
+                if (w == 1 && mid) { emit('x'); s_catc(val, 'x'); }
+                emits("${"); emits(ref); emit('}');
+                int found = -1;
+                for (unsigned j = 0; j < ex_n; j++) if (s_eq(ex_name[j], ref)) found = (int)j;
+                if (found >= 0) {
+                    if (ex_dirty[found]) ex_excluded = 1;
+                    /* values that could combine with their neighbourhood into a new ${...} are outside this family */
+                    for (const char *q = ex_val[found]; *q; q++) if (*q == '$' || *q == '{' || *q == '}') ex_excluded = 1;
+                    s_cat(val, ex_val[found]);
+                } else {
+                    s_cat(val, "${"); s_cat(val, ref); s_catc(val, '}');
+                    dirty = 1;
+                }
+            }
+            ex_put(name, val, dirty);
         } else { /* K_ENV */
             const char *en = vf_envnames[dig(N_ENVNAMES)];
             emits("${%");
